@@ -1,8 +1,10 @@
 (* NonVacuous/C05.v — every C05 theorem with a hypothesis, on the example tree and the example runs of Common.v.
    Each example: hypotheses /\ instantiated conclusion (the conclusion by applying the theorem).
+   The theorems about the message specification (message_semantics, message_semantics_tokens, layout_independent,
+   the three spec_units lemmas) are instantiated on the messages of CommonMsg.v (end of the file).
    Skipped (no hypothesis): C05_exec_invokes_at_most_once. *)
-From VF Require Import Base Gen_Errors Lexer Response Tree Tree_proofs Scripted.
-From VF.NonVacuous Require Import Common.
+From VF Require Import Base Gen_Errors Lexer Grammar Response Tree Tree_proofs HeaderSpec Scripted MessageSpec.
+From VF.NonVacuous Require Import Common CommonMsg.
 From VF.Properties Require C05.
 Import C05.
 Open Scope N_scope.
@@ -66,3 +68,168 @@ Qed.
 Print Assumptions C05_hook_exactly_once_nonvacuous.
 Print Assumptions C05_first_error_aborts_nonvacuous.
 Print Assumptions C05_leftover_is_108_nonvacuous.
+
+(* ------------------------------------------------------------------ *)
+(* the theorems about the message specification, on the messages of CommonMsg.v *)
+(* ------------------------------------------------------------------ *)
+(* seven units (absolute, relative, common headers; four queries), all run in order *)
+Example C05_message_semantics_nonvacuous :
+  wf_tree ex_tree /\ wf_msg m_ok = true /\
+  run ex_tree (render_msg m_ok) [] f0 = Val (spec_message ex_tree m_ok [] f0) /\
+  render_msg m_ok = bs " :SOURce:VOLT:RANG 7 ;lev?;*IDN? ; RANG?;LEV #H5;:sour:FREQ  -1.50E+3 ; :syst:version?" ++ [10] /\
+  spec_message ex_tree m_ok [] f0 = m_ok_result /\
+  r_err m_ok_result = None /\ r_hook m_ok_result = [] /\ r_out m_ok_result = bs "5;ACME,42;""AUTO"";VERS 1999.0" ++ [10] /\
+  length (r_trace m_ok_result) = 7%nat.
+Proof.
+  exact (conj ex_tree_wf (conj m_ok_wf (conj (C05_message_semantics ex_tree m_ok [] f0 ex_tree_wf m_ok_wf)
+    (conj m_ok_text (conj m_ok_spec (conj eq_refl (conj eq_refl (conj eq_refl eq_refl)))))))).
+Qed.
+
+(* the SECOND of three units fails (a data element is left over, -108): the error is returned and reported once, the
+   third unit is not executed (two trace entries: *IDN? and the RANGe handler that did run) *)
+Example C05_message_semantics_nonvacuous_abort :
+  wf_tree ex_tree /\ wf_msg m_108 = true /\
+  run ex_tree (render_msg m_108) [] f0 = Val (spec_message ex_tree m_108 [] f0) /\
+  render_msg m_108 = bs "*IDN?;:SOUR:VOLT:RANG 5 , #B101;LEV?" /\
+  spec_message ex_tree m_108 [] f0 = m_108_result /\
+  r_err m_108_result = Some (std_error ParameterNotAllowed) /\ r_hook m_108_result = [std_error ParameterNotAllowed] /\
+  r_out m_108_result = bs "ACME,42" /\ r_trace m_108_result = [(1, true, bs "ACME,42"); (3, false, [])].
+Proof.
+  exact (conj ex_tree_wf (conj m_108_wf (conj (C05_message_semantics ex_tree m_108 [] f0 ex_tree_wf m_108_wf)
+    (conj m_108_text (conj m_108_spec (conj eq_refl (conj eq_refl (conj eq_refl eq_refl)))))))).
+Qed.
+
+(* the second unit is an undefined header (-113): one trace entry *)
+Example C05_message_semantics_nonvacuous_undefined :
+  wf_tree ex_tree /\ wf_msg m_113 = true /\
+  run ex_tree (render_msg m_113) [] f0 = Val (spec_message ex_tree m_113 [] f0) /\
+  render_msg m_113 = bs ":VOLT:RANG?;FREQ 1;*IDN?" /\
+  spec_message ex_tree m_113 [] f0 = m_113_result /\
+  r_err m_113_result = Some (std_error UndefinedHeader) /\ r_hook m_113_result = [std_error UndefinedHeader] /\
+  length (r_trace m_113_result) = 1%nat.
+Proof.
+  exact (conj ex_tree_wf (conj m_113_wf (conj (C05_message_semantics ex_tree m_113 [] f0 ex_tree_wf m_113_wf)
+    (conj m_113_text (conj m_113_spec (conj eq_refl (conj eq_refl eq_refl))))))).
+Qed.
+
+(* the seven-unit message into a 9-byte response buffer: after "5;ACME,42" there is no room for the unit separator of
+   the fourth unit (RANG?), whose handler is therefore not invoked; the message ends with -225 *)
+Definition m_ok_cap9_result : run_result slog :=
+  mkRun (Some (std_error OutOfMemory)) [LCall 3 false; LTyped; LCall 2 true; LCall 1 true] (bs "5;ACME,42")
+        [(3, false, []); (2, true, bs "5"); (1, true, bs "ACME,42")] [std_error OutOfMemory].
+Example C05_message_semantics_nonvacuous_capacity :
+  let f9 := mkFmt (Some 9%nat) [] in
+  wf_tree ex_tree /\ wf_msg m_ok = true /\
+  run ex_tree (render_msg m_ok) [] f9 = Val (spec_message ex_tree m_ok [] f9) /\
+  spec_message ex_tree m_ok [] f9 = m_ok_cap9_result.
+Proof.
+  intro f9.
+  assert (h : spec_message ex_tree m_ok [] f9 = m_ok_cap9_result) by (vm_compute; reflexivity).
+  exact (conj ex_tree_wf (conj m_ok_wf (conj (C05_message_semantics ex_tree m_ok [] f9 ex_tree_wf m_ok_wf) h))).
+Qed.
+
+(* the token-level statement, on the failing message: the 16 tokens of "*IDN?;:SOUR:VOLT:RANG 5 , #B101;LEV?" *)
+Example C05_message_semantics_tokens_nonvacuous :
+  wf_tree ex_tree /\ wf_msg m_108 = true /\
+  (exists s e, run_tokens ex_tree (map IOk (tokens_of m_108)) [] f0 = Val (s, e) /\
+     (x_dev s, x_fmt s, x_trace s, e) = spec_units ex_tree ex_tree (m_units m_108) [] f0 []) /\
+  tokens_of m_108 =
+    [TMnemonic (bs "*IDN"); THeaderQuerySuffix; TUnitSeparator;
+     THeaderMnemonicSeparator; TMnemonic (bs "SOUR"); THeaderMnemonicSeparator; TMnemonic (bs "VOLT");
+     THeaderMnemonicSeparator; TMnemonic (bs "RANG"); THeaderSeparator; TDec (bs "5"); TDataSeparator; TNonDec 5;
+     TUnitSeparator; TMnemonic (bs "LEV"); THeaderQuerySuffix] /\
+  spec_units ex_tree ex_tree (m_units m_108) [] f0 []
+  = ([LCall 1 true; LCall 3 false; LTyped], mkFmt None (bs "ACME,42"), [(1, true, bs "ACME,42"); (3, false, [])],
+     Some (std_error ParameterNotAllowed)).
+Proof.
+  exact (conj ex_tree_wf (conj m_108_wf (conj (C05_message_semantics_tokens ex_tree m_108 [] f0 ex_tree_wf m_108_wf)
+    (conj eq_refl m_108_units_spec)))).
+Qed.
+(* ... and on the successful one (35 tokens, final state spelled out) *)
+Example C05_message_semantics_tokens_nonvacuous_ok :
+  wf_tree ex_tree /\ wf_msg m_ok = true /\
+  (exists s e, run_tokens ex_tree (map IOk (tokens_of m_ok)) [] f0 = Val (s, e) /\
+     (x_dev s, x_fmt s, x_trace s, e) = spec_units ex_tree ex_tree (m_units m_ok) [] f0 []) /\
+  length (tokens_of m_ok) = 35%nat /\
+  spec_units ex_tree ex_tree (m_units m_ok) [] f0 [] = (m_ok_dev, mkFmt None m_ok_out, m_ok_trace, None).
+Proof.
+  exact (conj ex_tree_wf (conj m_ok_wf (conj (C05_message_semantics_tokens ex_tree m_ok [] f0 ex_tree_wf m_ok_wf)
+    (conj eq_refl m_ok_units_spec)))).
+Qed.
+
+(* two different byte strings (white space, HT, a header separator before `;`, #H5 / #b0101, NL / no NL) with the
+   same headers and data elements run alike *)
+Example C05_layout_independent_nonvacuous :
+  wf_tree ex_tree /\ wf_msg m_ok = true /\ wf_msg m_ok2 = true /\
+  map (fun uw => (u_header (fst uw), unit_data (fst uw))) (m_units m_ok)
+    = map (fun uw => (u_header (fst uw), unit_data (fst uw))) (m_units m_ok2) /\
+  render_msg m_ok = bs " :SOURce:VOLT:RANG 7 ;lev?;*IDN? ; RANG?;LEV #H5;:sour:FREQ  -1.50E+3 ; :syst:version?" ++ [10] /\
+  render_msg m_ok2 = bs ":SOURce:VOLT:RANG" ++ [9] ++ bs "7; lev? ;" ++ [9] ++ bs "*IDN?;RANG?; LEV " ++ [9]
+                     ++ bs "#b0101 ;  :sour:FREQ -1.50E+3;:syst:version?" /\
+  render_msg m_ok <> render_msg m_ok2 /\
+  run ex_tree (render_msg m_ok) [] f0 = run ex_tree (render_msg m_ok2) [] f0.
+Proof.
+  exact (conj ex_tree_wf (conj m_ok_wf (conj m_ok2_wf (conj m_ok_same_units (conj m_ok_text (conj m_ok2_text
+    (conj m_ok_renderings_differ
+      (C05_layout_independent ex_tree m_ok m_ok2 [] f0 ex_tree_wf m_ok_wf m_ok2_wf m_ok_same_units)))))))).
+Qed.
+
+(* spec_units from the middle of the successful message: the six units after the first, started in the context
+   VOLTage, the device log and the trace left by the first unit: 1 + 6 trace entries *)
+Example C05_spec_units_ok_trace_nonvacuous :
+  let us := tl (m_units m_ok) in
+  let d1 : slog := [LCall 3 false; LTyped] in
+  let tr1 : trace := [(3, false, [])] in
+  spec_units ex_tree t_volt us d1 f0 tr1 = (m_ok_dev, mkFmt None m_ok_out, m_ok_trace, None) /\
+  length m_ok_trace = (length tr1 + length us)%nat /\ length us = 6%nat /\ length m_ok_trace = 7%nat.
+Proof.
+  intros us d1 tr1.
+  assert (h : spec_units ex_tree t_volt us d1 f0 tr1 = (m_ok_dev, mkFmt None m_ok_out, m_ok_trace, None))
+    by (vm_compute; reflexivity).
+  exact (conj h (conj (C05_spec_units_ok_trace ex_tree t_volt us d1 f0 tr1 _ _ _ h) (conj eq_refl eq_refl))).
+Qed.
+
+(* a failing run: three units, the second fails; 2 <= 0 + 3 (strictly: the third unit added nothing) *)
+Example C05_spec_units_err_trace_nonvacuous :
+  spec_units ex_tree ex_tree (m_units m_108) [] f0 []
+  = (m_108_dev, mkFmt None (bs "ACME,42"), m_108_trace, Some (std_error ParameterNotAllowed)) /\
+  (length m_108_trace <= length ([] : trace) + length (m_units m_108))%nat /\
+  length m_108_trace = 2%nat /\ length (m_units m_108) = 3%nat.
+Proof.
+  exact (conj m_108_units_spec (conj (C05_spec_units_err_trace ex_tree ex_tree _ _ _ _ _ _ _ _ m_108_units_spec)
+    (conj eq_refl eq_refl))).
+Qed.
+
+(* the trace only grows: the last two units of the failing message, started in the context ROOT with a non-empty trace
+   and a non-empty response buffer left by an earlier query *)
+Example C05_spec_units_trace_extends_nonvacuous :
+  let us := tl (m_units m_108) in
+  let tr1 : trace := [(9, true, bs "X")] in
+  spec_units ex_tree ex_tree us [LCall 9 true] (mkFmt None (bs "X")) tr1
+  = ([LCall 9 true; LCall 3 false; LTyped], mkFmt None (bs "X"), [(9, true, bs "X"); (3, false, [])],
+     Some (std_error ParameterNotAllowed)) /\
+  exists added, [(9, true, bs "X"); (3, false, [])] = tr1 ++ added.
+Proof.
+  intros us tr1.
+  assert (h : spec_units ex_tree ex_tree us [LCall 9 true] (mkFmt None (bs "X")) tr1
+    = ([LCall 9 true; LCall 3 false; LTyped], mkFmt None (bs "X"), [(9, true, bs "X"); (3, false, [])],
+       Some (std_error ParameterNotAllowed))) by (vm_compute; reflexivity).
+  exact (conj h (C05_spec_units_trace_extends ex_tree ex_tree us _ _ tr1 _ _ _ _ h)).
+Qed.
+(* ... and for the successful message from the start *)
+Example C05_spec_units_trace_extends_nonvacuous_ok :
+  spec_units ex_tree ex_tree (m_units m_ok) [] f0 [] = (m_ok_dev, mkFmt None m_ok_out, m_ok_trace, None) /\
+  exists added, m_ok_trace = [] ++ added.
+Proof. exact (conj m_ok_units_spec (C05_spec_units_trace_extends ex_tree ex_tree _ _ _ _ _ _ _ _ m_ok_units_spec)). Qed.
+
+Print Assumptions C05_message_semantics_nonvacuous.
+Print Assumptions C05_message_semantics_nonvacuous_abort.
+Print Assumptions C05_message_semantics_nonvacuous_undefined.
+Print Assumptions C05_message_semantics_nonvacuous_capacity.
+Print Assumptions C05_message_semantics_tokens_nonvacuous.
+Print Assumptions C05_message_semantics_tokens_nonvacuous_ok.
+Print Assumptions C05_layout_independent_nonvacuous.
+Print Assumptions C05_spec_units_ok_trace_nonvacuous.
+Print Assumptions C05_spec_units_err_trace_nonvacuous.
+Print Assumptions C05_spec_units_trace_extends_nonvacuous.
+Print Assumptions C05_spec_units_trace_extends_nonvacuous_ok.
